@@ -261,6 +261,74 @@ theorem nothing_lost (k : Key) (bm : Msg) (ops : List Op) (st : St) (hheld : st.
       · right; exact ⟨obs, by simp [run, ho], hw⟩
     · right; exact ⟨(stepOp st op).2, by simp [run], h⟩
 
+/-! ### … and along the whole life of the gateway object (reconnects)
+
+The failure "is reported to the caller of listen" — who, as a rule, lets it leave `async with gateway:` and enters the
+same `Gateway` object again.  With a persistence file every `__aenter__` runs `Persistence.load`, which replaces the
+entries of the registry by fresh `Node` objects built from the file.  What is held for a sleeping node is state of the
+gateway object, not of the registry (`St.sbuf`, not `St.nodes`): whatever a re-entry makes of the registry, a held
+command is still held.  (A buffer kept ON the `Node` objects would make `reenter` below touch it — the statement that
+stops being provable is `lifeStep_reenter_sbuf`.) -/
+
+/-- One event in the life of a gateway object: an operation of a history, or leaving the context and entering it
+again, after which the registry is whatever `Persistence.load` made of the file — ANY registry (the same nodes as fresh
+objects, nodes missing, nodes added, a file somebody else wrote). -/
+inductive LifeOp where
+  | gw (op : Op)
+  | reenter (nodes : PDict Int Node)
+
+def lifeStep (st : St) : LifeOp → St × List Obs
+  | .gw op => ((stepOp st op).1, [(stepOp st op).2])
+  | .reenter ns => ({ st with nodes := ns }, [])
+
+theorem lifeStep_reenter_sbuf (st : St) (ns : PDict Int Node) : (lifeStep st (.reenter ns)).1.sbuf = st.sbuf := rfl
+
+/-- Run a life; the final state and the observations of its operations in order. -/
+def lifeRun (st : St) : List LifeOp → St × List Obs
+  | [] => (st, [])
+  | op :: ops => ((lifeRun (lifeStep st op).1 ops).1, (lifeStep st op).2 ++ (lifeRun (lifeStep st op).1 ops).2)
+
+/-- No operation of the life is a `send` for the key `k`. -/
+def NoSendToLife (k : Key) (ops : List LifeOp) : Prop :=
+  ∀ op ∈ ops, match op with
+    | .gw (.send (some m) _ _) => m.key ≠ k
+    | _ => True
+
+/-- **Nothing is lost, along any life of the gateway object**: received lines of every kind, `send` calls for other
+keys, failing and cancelled writes, and any number of re-entries of the context in between (each replacing the
+registry by an arbitrary one) — a held command is afterwards still held unchanged, or was handed to the transport
+successfully at some step. -/
+theorem nothing_lost_life (k : Key) (bm : Msg) (ops : List LifeOp) (st : St) (hheld : st.sbuf.get? k = some bm)
+    (hs : NoSendToLife k ops) :
+    (lifeRun st ops).1.sbuf.get? k = some bm ∨
+      ∃ obs ∈ (lifeRun st ops).2, (⟨encode bm, true⟩ : WriteEvt) ∈ obs.writes := by
+  induction ops generalizing st with
+  | nil => left; simpa [lifeRun] using hheld
+  | cons op ops ih =>
+    have hs2 : NoSendToLife k ops := fun o ho => hs o (List.mem_cons_of_mem _ ho)
+    cases op with
+    | reenter ns =>
+      rcases ih (lifeStep st (.reenter ns)).1 (by simpa [lifeStep] using hheld) hs2 with h2 | ⟨obs, ho, hw⟩
+      · left; simpa [lifeRun] using h2
+      · right; exact ⟨obs, by simp [lifeRun, lifeStep] at ho ⊢; exact ho, hw⟩
+    | gw o =>
+      have hs1 : NoSendTo k [o] := by
+        intro o' ho'
+        simp only [List.mem_singleton] at ho'
+        subst ho'
+        have := hs (.gw o') (by simp)
+        cases o' with
+        | recv env line faults => trivial
+        | send obj b faults =>
+          cases obj with
+          | none => trivial
+          | some m => simpa using this
+      rcases step_loses_nothing k bm st o hheld hs1 with h | h
+      · rcases ih (lifeStep st (.gw o)).1 (by simpa [lifeStep] using h) hs2 with h2 | ⟨obs, ho, hw⟩
+        · left; simpa [lifeRun] using h2
+        · right; exact ⟨obs, by simp only [lifeRun, List.mem_append]; exact Or.inr ho, hw⟩
+      · right; exact ⟨(stepOp st o).2, by simp [lifeRun, lifeStep], h⟩
+
 /-! Non-vacuity: two parked commands, the second write fails. -/
 example :
     let st : St := { sbuf := [((1, 0, 2), ⟨1, 0, 1, 0, 2, ['5']⟩), ((1, 1, 2), ⟨1, 1, 1, 0, 2, ['6']⟩)] }
